@@ -22,7 +22,7 @@ def run(ctx):
                 "2^63-1, 2^63, 2^64-1}; field product over use, certificate type, authority, principal list, critical options, "
                 "supported options, revocation, signature class; encoding classes x bytes-the-CA-signed); each materialised with "
                 "boundary and random in-class time values, rotating subject key type (8) and CA key type (8, incl. security-key CAs "
-                "signing without user presence); distinct = distinct (case, time variant); plus random-field SignCert round trips "
+                "signing without user presence), certificates with >= 2 critical options checked 24 times (map iteration order); distinct = distinct (case, time variant); plus random-field SignCert round trips "
                 "and ssh-keygen -s issued certificates")
     ctx.assumptions = [
         "the verdict is taken against the property's conjunction as evaluated by TLC (Literal) for byte strings that ParsePublicKey delivers as certificates; byte strings the parser rejects are outside the accept-iff clause (canonical SignCert/ssh-keygen output must parse)",
